@@ -41,6 +41,11 @@ SHAPES = (
 )
 
 
+def _named(f: Any, name: str) -> Any:
+    f.__name__ = f.__qualname__ = name
+    return f
+
+
 class Gates:
     """Cooperative scheduling of real threads: a thread blocks at every gate until the controller picks it."""
 
@@ -196,9 +201,12 @@ def _run_calls(cfg: TCfg, c: Ctx) -> Any:
 def _wait_blocked_or_done(t: threading.Thread, func_names: Tuple[str, ...], done: Callable[[], bool]) -> str:
     """Poll until thread t has finished its operation or sits (twice in a row) inside one of func_names."""
     seen = 0
+    t0 = time.time()
     for _ in range(4000):
         if done():
             return "done"
+        if time.time() - t0 > 2.5:
+            return "blocked-elsewhere"  # neither finished nor waiting for the build lock
         fr = sys._current_frames().get(t.ident)  # type: ignore[arg-type]
         inside = False
         while fr is not None:
@@ -230,11 +238,14 @@ def _run_build(cfg: TCfg, c: Ctx) -> Any:
     xns = {l: xn(f, resource=Resource.main_thread) for l, f in fns.items()}
 
     # an existing DAG
+    es = xn(_named(lambda *a: SymVal(vapp("f_es", [lift(v) for v in a])), "es"), setup=True, resource=Resource.main_thread)
+
     def existing(x, y=11):  # type: ignore[no-untyped-def]
-        return xns["e1"](xns["e0"](x, y), 5)
+        return xns["e1"](xns["e0"](x, y), es(7))
 
     existing.__qualname__ = existing.__name__ = "existing"
     e = dag(existing)
+    e.setup()  # (the property: shared DAGs are used after their setup nodes have run)
     paused, resume = threading.Event(), threading.Event()
 
     def pause_point() -> None:
@@ -334,7 +345,7 @@ def _run_build(cfg: TCfg, c: Ctx) -> Any:
     if op == "build":
         c.check(gb[0] == "value" and gb[1] == ref_b, "the concurrently built second DAG differs from the sequentially built one", prop="C16", data=data)
     # the existing DAG still works and is unchanged
-    c.check(veq(e(Y, 3), xns["e1"].exec_function(xns["e0"].exec_function(Y, 3), 5)), "existing DAG changed behaviour after a concurrent build", prop="C16", data=data)
+    c.check(veq(e(Y, 3), xns["e1"].exec_function(xns["e0"].exec_function(Y, 3), es.exec_function(7))), "existing DAG changed behaviour after a concurrent build", prop="C16", data=data)
     c.cover("states", hash((pause_at, op, relation)))
     c.cover("w_" + op)
     return data
